@@ -744,7 +744,16 @@ impl<C: Coll> SerdeRunner<C> {
             }
             ("deser_in_place", k) if k >= 3 => {
                 let mut s = Self::script(a);
+                let before = contents(self.get(tgt));
+                let cap_before = self.get(tgt).capacity();
                 let r = self.get_mut(tgt).deser_in_place(&mut s);
+                // C20: whatever length the input claims, the reservation made before reading is bounded by a
+                // constant (at most 16384 buckets = capacity 14336, see Hb.C20S.in_place_reservation_bounded_partial);
+                // the scripts deliver far fewer elements than that
+                let cap_after = self.get(tgt).capacity();
+                if cap_after > std::cmp::max(cap_before, 14336) {
+                    self.notes.push(format!("ORACLE-CAP(in-place_deserialisation_left_capacity_{}_for_hint_{:?})", cap_after, s.hint));
+                }
                 self.moved_in.extend(s.built.iter().cloned());
                 let consumed = match (&r, s.fail) {
                     (Ok(()), _) => s.toks.len(),
@@ -754,7 +763,10 @@ impl<C: Coll> SerdeRunner<C> {
                         0
                     }
                 };
-                if lawful() && contents(self.get(tgt)) != Self::fold_ref(Contents::new(), &s.toks[..consumed]) {
+                // sets have their own in-place visitor (clear, then refill: a failed run leaves the elements read so
+                // far); maps use serde's default (`*place = deserialize()?`: a failed run leaves the place untouched)
+                let want = if C::IS_SET || r.is_ok() { Self::fold_ref(Contents::new(), &s.toks[..consumed]) } else { before };
+                if lawful() && contents(self.get(tgt)) != want {
                     self.notes.push("ORACLE-LASTWINS(in-place_contents_differ_from_reference)".into());
                 }
                 let c = self.get(tgt);
@@ -968,8 +980,8 @@ pub fn next_op(g: &mut Gen, r: &dyn Runner) -> String {
         format!("{} roundtrip{} {}", tgt, sfx, base)
     } else {
         let n = *g.rng.pick(&[0u64, 0, 1, 2, 3, 4, 5, 7, 8, 13, 15, 20, 29, 40]);
-        let in_place = set && g.rng.chance(2, 5);
-        let name = if in_place { "deser_in_place_set".to_string() } else { format!("deser{}", sfx) };
+        let in_place = g.rng.chance(2, 5);
+        let name = if in_place { format!("deser_in_place{}", sfx) } else { format!("deser{}", sfx) };
         if x < 62 && n > 0 && n <= 8 {
             // systematic: the same input failing at every position (keys, values, end marker)
             let (_, toks) = tokens(g, set, n);
